@@ -35,7 +35,7 @@ func main() {
 		"syncpeer": runSyncParent, "syncpeer-child": runSyncChild,
 		"stall": runStallParent, "stall-child": runStallChild,
 		"sessions": runSessionsParent,
-		"auth": runAuthParent, "auth-child": runAuthChild,
+		"auth":     runAuthParent, "auth-child": runAuthChild,
 	})
 }
 
@@ -113,18 +113,20 @@ func runHandlerParent(rng *rand.Rand, n int, out *Out, args []string) {
 	}
 }
 
-// sessions = the suites syncpeer (n sessions) and stall (4 rounds, 12 from n = 100 on) side by side: both spend most of
-// their time waiting for the node's own timers (5 s handshake / hash request, 9 s block request, 4 s synchronisation cycle)
+// sessions = the suites syncpeer (n sessions), stall (4 rounds, 12 from n = 100 on) and peers (12 scenarios, 240 from
+// n = 100 on) side by side: all of them spend most of their time waiting for the node's own timers (5 s handshake / hash
+// request, 9 s block request, 4 s synchronisation cycle). Each of them can be run alone under its own name.
 func runSessionsParent(rng *rand.Rand, n int, out *Out, args []string) {
-	r1, r2 := rand.New(rand.NewSource(rng.Int63())), rand.New(rand.NewSource(rng.Int63()))
-	rounds := 4
+	r1, r2, r3 := rand.New(rand.NewSource(rng.Int63())), rand.New(rand.NewSource(rng.Int63())), rand.New(rand.NewSource(rng.Int63()))
+	rounds, scen := 4, 12
 	if n >= 100 {
-		rounds = 12
+		rounds, scen = 12, 240
 	}
 	var wg sync.WaitGroup
-	wg.Add(2)
+	wg.Add(3)
 	go func() { defer wg.Done(); runSyncParent(r1, n, out, nil) }()
 	go func() { defer wg.Done(); runStallParent(r2, rounds, out, nil) }()
+	go func() { defer wg.Done(); runPeersParent(r3, scen, out, nil) }()
 	wg.Wait()
 }
 
